@@ -1334,6 +1334,12 @@ func regexpToWordMatchTree(q *query.Regexp, opt matchTreeOpt) (_ *wordMatchTree,
 		return nil, false
 	}
 
+	// \b only means "next to a non-word byte" when the literal itself starts
+	// and ends with a word character; otherwise leave it to the regexp engine.
+	if word := string(sub[1].Rune); word == "" || !characterClass(word[0]) || !characterClass(word[len(word)-1]) {
+		return nil, false
+	}
+
 	return &wordMatchTree{
 		word:     string(sub[1].Rune),
 		fileName: q.FileName,
